@@ -10,7 +10,8 @@ bytes before the offset are empty or end in "\n" (the record starts a line), fin
 the durable prefix of `data`, and the byte ranges of records in the same file are pairwise disjoint.
 Renames re-path the records.  The statement needs the file behind `f.out` to be empty or
 "\n"-terminated whenever a record is appended (`NlOk`): guaranteed by O_EXCL, by fix F47
-(`Cfg.sealsTail`), or by the hypothesis that every pre-existing / foreign file is "\n"-terminated.
+(`Cfg.sealsTail`; with its follow-up F47b, `Cfg.sealReadWarns`, only while the last byte of the re-opened file can be
+read: `ReadsOk`), or by the hypothesis that every pre-existing / foreign file is "\n"-terminated.
 -/
 namespace Nsq.Proofs.ToFileLines
 open Nsq.Model.ToFile Nsq.Proofs.ToFile
@@ -560,16 +561,63 @@ theorem lines_closeOut {c : Cfg} {nlAll : Bool} (io : Nat → Fault) (st : St) (
 
 /-! ### open, seal, write -/
 
-/-- which configurations never append behind a torn tail: fix F47, O_EXCL, or every file "\n"-terminated -/
-def Mode (nlAll : Bool) (c : Cfg) : Prop := c.sealsTail = true ∨ c.excl = true ∨ nlAll = true
+/-- no read of a last byte fails: every existing file the tool re-opens for appending is readable by it (the fault
+`Fault.rdErr` never occurs). The hypothesis the torn-tail guarantee needs under F47b (`Cfg.sealReadWarns`). -/
+def ReadsOk (io : Nat → Fault) : Prop := ∀ t, io t ≠ .rdErr
 
-/-- fix F47 on the file `f` just opened for appending -/
-theorem lines_sealTail {c : Cfg} {nlAll : Bool} (io : Nat → Fault) (s1 : St) (f : File) {rf rp : List Rec}
+/-- which configurations never append behind a torn tail: fix F47 (committed shape: a failed read of the last byte is a
+fatal exit; F47b shape `Cfg.sealReadWarns`: it is a warning, so the reads must succeed), O_EXCL, or every file
+"\n"-terminated -/
+def Mode (nlAll : Bool) (c : Cfg) (io : Nat → Fault) : Prop :=
+  (c.sealsTail = true ∧ (c.sealReadWarns = true → ReadsOk io)) ∨ c.excl = true ∨ nlAll = true
+
+/-- `Mode` at one open primitive whose slot of the schedule is `rd` -/
+def ModeAt (nlAll : Bool) (c : Cfg) (rd : Fault) : Prop :=
+  (c.sealsTail = true ∧ (c.sealReadWarns = true → rd ≠ .rdErr)) ∨ c.excl = true ∨ nlAll = true
+
+theorem Mode.at {nlAll : Bool} {c : Cfg} {io : Nat → Fault} (h : Mode nlAll c io) (t : Nat) : ModeAt nlAll c (io t) := by
+  cases h with
+  | inl h => exact Or.inl ⟨h.1, fun hw => h.2 hw t⟩
+  | inr h => exact Or.inr h
+
+/-- fix F47 (and its follow-up F47b) on the file `f` just opened for appending -/
+theorem lines_sealTail {c : Cfg} {nlAll : Bool} (io : Nat → Fault) (rd : Fault) (s1 : St) (f : File) {rf rp : List Rec}
     (_hr : s1.status = .running) (hg : s1.fs.get s1.outPath = some f)
     (h : Core c s1 rf rp) (ha : ADur s1 rp)
     (hoth : nlAll = true → ∀ p g, s1.fs.get p = some g → nlEnded g.content)
-    (hmode : Mode nlAll c) (hnx : c.excl = false) : LID nlAll c (sealTail c io s1 f) := by
+    (hmode : ModeAt nlAll c rd) (hnx : c.excl = false) : LID nlAll c (sealTail c io rd s1 f) := by
+  -- the file is left as it is: fine when it is known to be empty or "\n"-terminated
+  have hkeep : nlEnded f.content → LID nlAll c s1 := by
+    intro hfnl
+    refine ⟨rf, rp, h, ?_, ha⟩
+    intro _ p g hp hpre
+    by_cases ep : p = s1.outPath
+    · subst ep
+      rw [hg] at hp; cases hp
+      exact hfnl
+    · cases hpre with
+      | inl hall => exact hoth hall p g hp
+      | inr ho => exact absurd ho.2.2 ep
   unfold sealTail
+  by_cases hrd : (c.sealsTail && !c.excl && !f.content.isEmpty && rd == .rdErr) = true
+  · rw [if_pos hrd]
+    have hrd' : rd = .rdErr := by
+      simp only [Bool.and_eq_true, beq_iff_eq] at hrd
+      exact hrd.2
+    by_cases hw : c.sealReadWarns = true
+    · rw [if_pos hw]
+      -- F47b: warned, appended to unsealed — only allowed here when every file is "\n"-terminated
+      apply hkeep
+      cases hmode with
+      | inl hs => exact absurd hrd' (hs.2 hw)
+      | inr h2 =>
+        cases h2 with
+        | inl hx => rw [hnx] at hx; cases hx
+        | inr hall => exact hoth hall _ f hg
+    · rw [if_neg hw]
+      -- committed F47: the read error is fatal
+      exact lid_dead h ⟨by simp [fatal], rfl, rfl, rfl, rfl⟩
+  rw [if_neg hrd]
   by_cases hc : (c.sealsTail && !c.excl && !nlEndedB f.content) = true
   · rw [if_pos hc]
     simp only []
@@ -596,30 +644,20 @@ theorem lines_sealTail {c : Cfg} {nlAll : Bool} (io : Nat → Fault) (s1 : St) (
         | inl hall => exact hoth hall p g hp
         | inr ho => exact absurd ho.2.2 ep
   · rw [if_neg hc]
-    refine ⟨rf, rp, h, ?_, ha⟩
-    intro _ p g hp hpre
-    have hfnl : (nlAll = true ∨ p = s1.outPath) → p = s1.outPath → nlEnded f.content := by
-      intro _ _
-      cases hmode with
-      | inl hs =>
-        have : nlEndedB f.content = true := by
-          cases hb : nlEndedB f.content
-          · exfalso; apply hc; simp [hs, hnx, hb]
-          · rfl
-        exact (nlEndedB_iff _).mp this
-      | inr h2 =>
-        cases h2 with
-        | inl hx => rw [hnx] at hx; cases hx
-        | inr hall => exact hoth hall _ f hg
-    by_cases ep : p = s1.outPath
-    · subst ep
-      rw [hg] at hp; cases hp
-      exact hfnl (Or.inr rfl) rfl
-    · cases hpre with
-      | inl hall => exact hoth hall p g hp
-      | inr ho => exact absurd ho.2.2 ep
+    apply hkeep
+    cases hmode with
+    | inl hs =>
+      have : nlEndedB f.content = true := by
+        cases hb : nlEndedB f.content
+        · exfalso; apply hc; simp [hs.1, hnx, hb]
+        · rfl
+      exact (nlEndedB_iff _).mp this
+    | inr h2 =>
+      cases h2 with
+      | inl hx => rw [hnx] at hx; cases hx
+      | inr hall => exact hoth hall _ f hg
 
-theorem lines_openNew {c : Cfg} {nlAll : Bool} (io : Nat → Fault) (st : St) (fn : String) (hmode : Mode nlAll c)
+theorem lines_openNew {c : Cfg} {nlAll : Bool} (io : Nat → Fault) (st : St) (fn : String) (hmode : Mode nlAll c io)
     (h : LID nlAll c st) : LID nlAll c (openNew c io st fn) := by
   obtain ⟨rf, rp, h1, h2, h3⟩ := h
   unfold openNew
@@ -661,7 +699,7 @@ theorem lines_openNew {c : Cfg} {nlAll : Bool} (io : Nat → Fault) (st : St) (f
             unfold taken at hnt
             rw [hg, hx] at hnt
             simp at hnt
-        refine lines_sealTail io _ f (rf := rf) (rp := rp) ?_ ?_ ?_ ?_ ?_ hmode hnx
+        refine lines_sealTail io _ _ f (rf := rf) (rp := rp) ?_ ?_ ?_ ?_ ?_ (hmode.at st.tick) hnx
         · exact hr
         · exact hg
         · exact ⟨h1.mf, h1.mp, h1.vf, fun _ x hx => Or.inl (h3 hr x hx), h1.dj, fun hw _ => hwd hw, fun _ _ _ => ⟨f, hg⟩⟩
@@ -669,7 +707,7 @@ theorem lines_openNew {c : Cfg} {nlAll : Bool} (io : Nat → Fault) (st : St) (f
         · intro hall p g hp; exact h2 hr p g hp (Or.inl hall)
 
 theorem lines_updateFile {c : Cfg} {nlAll : Bool} (io : Nat → Fault) (st : St) (now : Int) (fn : String)
-    (hmode : Mode nlAll c) (h : LI nlAll c st) : LID nlAll c (updateFile c io st now fn) := by
+    (hmode : Mode nlAll c io) (h : LI nlAll c st) : LID nlAll c (updateFile c io st now fn) := by
   unfold updateFile
   obtain ⟨rf, rp, k1, k2, k3⟩ := lines_closeOut io st h
   apply lines_openNew io _ fn hmode
@@ -801,7 +839,7 @@ theorem lines_finishRun {c : Cfg} {nlAll : Bool} (st : St) (h : LI nlAll c st) :
   · rw [if_neg h1]; exact ⟨rf, rp, Core_dead k1 ⟨by simp, rfl, rfl, rfl, rfl⟩, fun hrr => by simp at hrr⟩
 
 theorem lines_step {c : Cfg} {nlAll : Bool} (io : Nat → Fault) (st : St) (ev : Ev) (starved : Bool)
-    (hmode : Mode nlAll c) (hev : EvOk nlAll ev) (h : LI nlAll c st) : LI nlAll c (step c io st ev starved) := by
+    (hmode : Mode nlAll c io) (hev : EvOk nlAll ev) (h : LI nlAll c st) : LI nlAll c (step c io st ev starved) := by
   unfold step
   by_cases hr : st.status ≠ .running
   · rw [if_pos hr]; exact h
@@ -870,7 +908,7 @@ theorem lines_step {c : Cfg} {nlAll : Bool} (io : Nat → Fault) (st : St) (ev :
             exact h2 hrun q g hq hpre
 
 theorem lines_run {c : Cfg} {nlAll : Bool} (io : Nat → Fault) (evs : List (Ev × Bool)) (st : St)
-    (hmode : Mode nlAll c) (hevs : ∀ e ∈ evs, EvOk nlAll e.1) (h : LI nlAll c st) : LI nlAll c (run c io st evs) := by
+    (hmode : Mode nlAll c io) (hevs : ∀ e ∈ evs, EvOk nlAll e.1) (h : LI nlAll c st) : LI nlAll c (run c io st evs) := by
   induction evs generalizing st with
   | nil => exact h
   | cons e es ih =>
